@@ -344,6 +344,25 @@ func (g *genState) object(depth int, keyPrefix string, nprops int) *SNode {
 		}
 		n.Props = append(n.Props, &SProp{Key: fmt.Sprintf("%sk%d", keyPrefix, g.id()), Node: pn})
 	}
+	// a property whose key is a reference to a string type (@t : value), with a scalar, object or array value; only in
+	// nested objects, which are never bases of an allOf rule (two bases with one key reference are a duplicate key)
+	if depth >= 1 && g.r.Chance(1, 8) {
+		for _, t := range g.types {
+			if t.Notation == "jsight" && t.Schema != nil && t.Schema.Kind == "string" && len(t.Schema.OrAlts) == 0 && t.Schema.EnumRef == "" {
+				var v *SNode
+				switch g.r.Intn(3) {
+				case 0:
+					v = &SNode{Kind: "int", Val: fmt.Sprint(g.r.Range(0, 99))}
+				case 1:
+					v = &SNode{Kind: "object", Props: []*SProp{{Key: fmt.Sprintf("%sk%d", keyPrefix, g.id()), Node: &SNode{Kind: "bool", Val: "true"}}}}
+				default:
+					v = &SNode{Kind: "array", Items: []*SNode{{Kind: "string", Val: g.word()}}}
+				}
+				n.Props = append(n.Props, &SProp{Key: t.Name, KeyRef: true, Node: v})
+				break
+			}
+		}
+	}
 	if g.opt.AllowAllOf && depth <= 1 && g.r.Chance(1, 4) {
 		bases := g.objectTypes(!g.opt.DeepAllOf)
 		if len(bases) > 0 {
@@ -491,6 +510,11 @@ func (g *genState) newPath() string {
 			if i > 0 && g.r.Chance(1, 3) {
 				segs = append(segs, fmt.Sprintf("{p%d}", i))
 			} else {
+				if i > 0 && g.r.Chance(1, 8) {
+					// characters that mean something to printf, URLs or escaping (never in the first segment: the tag name)
+					segs = append(segs, []string{"my%20report", "100%", "a-b", "x.y", "%s", "q~1"}[g.r.Intn(6)])
+					continue
+				}
 				segs = append(segs, []string{"cats", "dogs", "users", "tasks", "v1", "items"}[g.r.Intn(6)])
 			}
 		}
